@@ -49,6 +49,8 @@ func main() {
 		runRuntime(checkC08())
 	case "C14":
 		runRuntime(checkC14())
+	case "C20":
+		checkC20()
 	case "gen-sample":
 		// debugging aid: print the DSL of a few specs
 		run := vc.New("sample")
